@@ -445,6 +445,7 @@ class CfgWorld:
         self.claude = rng.random() < 0.6
         self.zed = rng.random() < 0.35                 # zed target (project scope): <project>/.rules
         self.repo_agents = rng.random() < 0.35         # codex scope both + write_agents_repo_root: <project>/AGENTS.md
+        self.vscode = rng.random() < 0.3               # vscode target (project scope): .github/copilot-instructions.md, .github/prompts/*.prompt.md
         self.project = sb.project
         self.modules = []
         for i in range(rng.randrange(0, 3)):
@@ -471,6 +472,8 @@ class CfgWorld:
             targets['claude_code'] = {'mode': 'files', 'scope': 'user', 'options': {}}
         if self.zed:
             targets['zed'] = {'mode': 'files', 'scope': 'project', 'options': {}}
+        if getattr(self, 'vscode', False):
+            targets['vscode'] = {'mode': 'files', 'scope': 'project', 'options': {}}
         mods = []
         for m in self.modules:
             d = os.path.join(sb.repo, m['dir'])
@@ -491,6 +494,9 @@ class CfgWorld:
             r.append({'target': 'zed', 'root': self.project, 'scan_extras': False})
         if self.claude and flt in (None, 'claude_code'):
             r.append({'target': 'claude_code', 'root': self.claude_cmds, 'scan_extras': True})
+        if getattr(self, 'vscode', False) and flt in (None, 'vscode'):
+            r.append({'target': 'vscode', 'root': self.project + '/.github', 'scan_extras': False})
+            r.append({'target': 'vscode', 'root': self.project + '/.github/prompts', 'scan_extras': True})
         r.sort(key=lambda x: (x['target'], x['root'].split('/')))      # targets::dedup_roots: sorted by (target, path)
         return r
     def desired(self, flt):
@@ -500,6 +506,13 @@ class CfgWorld:
                 continue
             for_codex = (not m['targets'] or 'codex' in m['targets']) and flt in (None, 'codex')
             for_claude = self.claude and (not m['targets'] or 'claude_code' in m['targets']) and flt in (None, 'claude_code')
+            for_vscode = getattr(self, 'vscode', False) and (not m['targets'] or 'vscode' in m['targets']) and flt in (None, 'vscode')
+            if m['type'] == 'prompt' and for_vscode:
+                (fn, b), = m['files'].items()
+                name = fn if fn.endswith('.prompt.md') else (fn[:-3] + '.prompt.md' if fn.endswith('.md') else fn + '.prompt.md')
+                D.append({'target': 'vscode', 'path': self.project + '/.github/prompts/' + name, 'bytes': b})
+            if m['type'] == 'instructions' and for_vscode:
+                D.append({'target': 'vscode', 'path': self.project + '/.github/copilot-instructions.md', 'bytes': m['files']['AGENTS.md']})
             if m['type'] == 'prompt' and for_codex and self.opts['write_user_prompts']:
                 (fn, b), = m['files'].items()
                 D.append({'target': 'codex', 'path': self.codex_home + '/prompts/' + fn, 'bytes': b})
@@ -826,7 +839,7 @@ def setup_two_roots(cw, rng):
     for m in cw.modules:
         if m['type'] in ('prompt', 'skill'): m['enabled'] = True; m['targets'] = []
     # no root without desired files (such a root gets no manifest: outside the history theorem's hypotheses, class K6c)
-    cw.zed = False; cw.repo_agents = False
+    cw.zed = False; cw.repo_agents = False; cw.vscode = False
     cw.opts['write_agents_global'] = any(m['type'] == 'instructions' and m['enabled'] and (not m['targets'] or 'codex' in m['targets']) for m in cw.modules)
     cw.claude = cw.claude and any(m['type'] == 'command' and m['enabled'] for m in cw.modules)
 
@@ -926,20 +939,51 @@ def hist_repeat_rollback(st, cw, sb, rng, hs):
     if st == 5: drift(); return {'kind': 'rollback', 'to': 1 - hs.rr_to, 'tags': ['script:same_rollback_again', 'user:drift']}
     return None
 
+def setup_all_targets(cw, rng):
+    """every target of the family switched on, at least one module of every type"""
+    cw.claude = True; cw.zed = True; cw.repo_agents = rng.random() < 0.5; cw.vscode = True
+    cw.opts = {k: True for k in cw.opts}
+    if not any(m['type'] == 'prompt' for m in cw.modules): cw.add_prompt()
+    if not any(m['type'] == 'skill' for m in cw.modules):
+        cw.modules.append({'id': 'skill:s9', 'type': 'skill', 'dir': 'modules/skills/s9', 'files': {'SKILL.md': skill_md('s9', 'one')}, 'targets': [], 'enabled': True})
+    if not any(m['type'] == 'instructions' for m in cw.modules):
+        cw.modules.append({'id': 'instructions:base', 'type': 'instructions', 'dir': 'modules/instructions/base', 'files': {'AGENTS.md': b'# rules\n'}, 'targets': [], 'enabled': True})
+    if not any(m['type'] == 'command' for m in cw.modules):
+        cw.modules.append({'id': 'command:c9', 'type': 'command', 'dir': 'modules/claude-commands/c9', 'files': {'c9.md': command_md('do x')}, 'targets': [], 'enabled': True})
+    for m in cw.modules: m['enabled'] = True
+
+def script_last_module_removed(st, cw, sb, rng):
+    """deploy everything; then all modules of one type disappear from the configuration (disabled, removed, or
+    restricted to another target), so some roots lose their last output; deploy; again with another type"""
+    n = st
+    if n == 0:
+        return ['script:all'], 'cli_json', True, None
+    if n in (1, 2, 3):
+        types = sorted({m['type'] for m in cw.modules if m['enabled']})
+        if not types: return None
+        ty = rng.choice(types); how = rng.choice(['disable', 'remove', 'retarget'])
+        for m in [m for m in cw.modules if m['type'] == ty]:
+            if how == 'disable': m['enabled'] = False
+            elif how == 'remove': cw.modules.remove(m)
+            else: m['targets'] = ['cursor'] if ty != 'command' else ['codex']      # a target that is not configured / does not take it
+        cw.write()
+        return ['cfg:%s_all_%s' % (how, ty)], rng.choice(CONFIRMED_ENTRIES), rng.random() < 0.3, rng.choice([None, None, None, 'vscode', 'codex'])
+    return None
+
 def setup_moved_roots(cw, rng):
     """configurations in which a relocation leaves NO usable manifest in the new roots (so that the
     snapshot fallback decides), plus ordinary ones"""
     k = rng.random()
     if k < 0.4:      # only project-scoped outputs: another checkout has no manifest at all
         cw.opts = {'write_agents_global': False, 'write_user_prompts': False, 'write_user_skills': False}
-        cw.repo_agents = True; cw.claude = False; cw.zed = rng.random() < 0.5
+        cw.repo_agents = True; cw.claude = False; cw.zed = rng.random() < 0.5; cw.vscode = rng.random() < 0.3
         if not any(m['type'] == 'instructions' for m in cw.modules):
             cw.modules.append({'id': 'instructions:base', 'type': 'instructions', 'dir': 'modules/instructions/base',
                                'files': {'AGENTS.md': b'# rules\n'}, 'targets': [], 'enabled': True})
         for m in cw.modules:
             if m['type'] == 'instructions': m['targets'] = []; m['enabled'] = True
     elif k < 0.8:    # only codex user scope: a moved codex_home has no manifest at all
-        cw.claude = False; cw.zed = False; cw.repo_agents = False
+        cw.claude = False; cw.zed = False; cw.repo_agents = False; cw.vscode = False
         if not cw.desired(None):
             cw.add_prompt()
         if rng.random() < 0.7:     # codex_home itself is a root (it contains the other roots' directories)
@@ -979,14 +1023,14 @@ def run_cli_stream(ctx, nhist, depth, props, stream='cli_deploy', idempotence=Fa
             initial = world_tree(sb)
             prev = initial
             steps = []; trees = [initial]; Ds = []; Rs = []; recs = []
-            pending_repeat = False
+            pending_repeat = False; sstep = 0
             for st in range(depth):
                 if pending_repeat:
                     tags = ['repeat']; pending_repeat = False
                     # same filter / same config, confirmed json entry: must be a no-op
                     entry = 'cli_json'; adopt = last[1]; flt = last[2]
                 elif script is not None:
-                    r_ = script(st, cw, sb, rng)
+                    r_ = script(sstep, cw, sb, rng); sstep += 1      # the script's own step count (repeat steps do not consume one)
                     if r_ is None:
                         break
                     tags, entry, adopt, flt = r_
@@ -996,7 +1040,7 @@ def run_cli_stream(ctx, nhist, depth, props, stream='cli_deploy', idempotence=Fa
                         tags.append('cfg:' + cw.edit_config()); cw.write()
                     if rng.random() < 0.5:
                         tags.append('user:' + user_edit(rng, cw))
-                    flt = rng.choice([None, None, 'codex'] + (['claude_code'] if cw.claude else []) + (['zed'] if cw.zed else []))
+                    flt = rng.choice([None, None, 'codex'] + (['claude_code'] if cw.claude else []) + (['zed'] if cw.zed else []) + (['vscode'] if getattr(cw, 'vscode', False) else []))
                     adopt = rng.random() < 0.35
                     entry = rng.choice(ENTRY)
                 before = world_tree(sb)
